@@ -3,6 +3,7 @@ CONSTANT MaxLen = 8
 CONSTANT Instances = {"frame"}
 INVARIANT DepsExact
 INVARIANT ConflictsOrdered
+INVARIANT DepsJustified
 INVARIANT ReadsUnordered
 INVARIANT DepsEarlier
 INVARIANT PendingExact
